@@ -265,6 +265,12 @@ class InterpMixin(object):
             self.unsupported("no source for %r" % (fn,))
         node, filename = found
         locs = self.bind_args(node.args, fn, args, kwargs)
+        if fn.__closure__:
+            for nm, cell in zip(fn.__code__.co_freevars, fn.__closure__):
+                try:
+                    locs.setdefault(nm, cell.cell_contents)
+                except ValueError:
+                    pass
         is_spec = self.eng.is_spec_function(fn) if spec is None else spec
         fr = Frame_(fn.__module__ + "." + fn.__qualname__, fn.__globals__, locs,
                     getattr(node, "_pyvc_class", None), is_spec, fn)
